@@ -132,6 +132,49 @@ def run_l2(run, pcases, max_projects):
     return len(trace) - 1
 
 
+def run_manyloc(run):
+    """scale in the number of locales (EitherOf nesting of the per-locale arms, defaulted arms shared by many locales)"""
+    import os
+    import probe
+    cases, _ = loadfam.gen_cases(run, "MC_ManyLoc", "MC_ManyLoc_%s.cfg" % run.tier, workers=1)
+    c = cases[0]
+    a = c["abs"]
+    calls, info = [], {}
+    env = {"x": "X1"}
+    for li, loc in enumerate(a["locs"]):
+        for key in ("m", "h"):
+            for flav in ("td_string", "td_display", "td"):
+                cid = len(calls) + 1
+                calls.append({"id": cid, "flav": flav, "locale": loc, "path": [key], "args": [["var", "x", json.dumps(env["x"])], ["comp", "b", "b"]]})
+                info[cid] = {"key": key, "li": li + 1, "flav": flav}
+    project = {"name": "c01many", "cfg": c["cfg"], "files": c["files"], "calls": calls}
+    results, log = probe.build_and_run(run, [project], tag="_c01many")
+    r = results["c01many"]
+    if not r["built"]:
+        run.violation("l2-build;many-locales;%d" % len(a["locs"]), "a project with %d locales does not compile" % len(a["locs"]), {"build_log": r["build_log"] or log[-3000:]})
+        return 0
+    if len(r["events"]) != len(calls):
+        raise vp.ToolError("c01many printed %d of %d results (rc=%s, %s)" % (len(r["events"]), len(calls), r.get("rc"), r.get("stderr", "")[-300:]))
+    trace = [{"ev": "RenderMany", "case": 1, "key": info[ev["call"]]["key"], "li": info[ev["call"]]["li"], "flav": info[ev["call"]]["flav"],
+              "env": {"x": probe.to_syms(env["x"]), "y": []}, "outcome": ev["outcome"], "out": probe.to_syms(ev["out"])} for ev in r["events"]]
+    trace.append({"ev": "End"})
+    wd = os.path.join(run.workdir, "l2many")
+    os.makedirs(wd, exist_ok=True)
+    tpath, cpath = os.path.join(wd, "trace.ndjson"), os.path.join(wd, "cases.ndjson")
+    vp.write_ndjson(tpath, trace)
+    vp.write_ndjson(cpath, [{"id": 1, "abs": a}])
+    summary, rejects, _ = vp.trace_validate("Trace_Value", "Trace_Value.cfg", wd, tpath, cpath)
+    if summary["consumed"] != summary["events"]:
+        raise vp.ToolError("trace spec consumed %s of %s events" % (summary["consumed"], summary["events"]))
+    run.traces += 1
+    run.events += summary["events"]
+    for rj in rejects:
+        ev = trace[rj["l"] - 1]
+        run.violation("l2;many-locales;%s;key=%s;locale-index=%d" % (ev["flav"], ev["key"], ev["li"]),
+                      "rendered %r" % vp.text_of(ev["out"]), {"event": ev, "locales": len(a["locs"])})
+    return len(trace) - 1
+
+
 def _key(c, r):
     if c.get("mode") == "value":
         return "value:" + " ".join(c["s"]) + ";" + sorted(r["tags"])[0]
@@ -159,6 +202,7 @@ def check(run):
                         variant="json-quote", key_of=lambda c, r: "namespaced;" + _key(c, r), tag="_ns")
     n_l2 = run_l2(run, pcases, 3 if quick else 40)
     run.notes["l2_render_events"] = n_l2
+    run.notes["l2_many_locale_events"] = run_manyloc(run)
     run.exhaustive = True
     run.notes["values_generated"] = len(values)
     run.notes["spellings_replayed"] = len(vcases)
